@@ -264,6 +264,11 @@ func (b *builder) buildEnvs() error {
 
 // buildLogDir builds the log directory for the DAG.
 func (b *builder) buildLogDir() (err error) {
+	if b.opts.noEval {
+		// Listing, viewing or validating a DAG must not run the commands in it.
+		b.dag.LogDir = b.def.LogDir
+		return nil
+	}
 	logDir, err := substituteCommands(os.ExpandEnv(b.def.LogDir))
 	if err != nil {
 		return err
